@@ -1,6 +1,6 @@
 (* C07 — sleep buffer: commands for a sleeping node wait for its wake, then go once. *)
 From Coq Require Import List NArith ZArith String.
-From AMS Require Import Models GatewayFacts GatewayInv GatewaySteps.
+From AMS Require Import Models GatewayFacts GatewayInv GatewaySteps GatewayTrace.
 Import ListNotations.
 Local Open Scope Z_scope.
 
@@ -62,6 +62,25 @@ Proof.
   destruct (good_listen_step bat vlt now line s Hi) as [_ [[_ [_ [H _]]] _]]. exact H.
 Qed.
 Print Assumptions C07_recv_never_parks.
+
+(* no other received message writes or removes a parked command: for every line,
+   state, oracle and fault stream, unless the generated dispatch tables put a
+   releasing handler (heartbeat response of 2.0/2.1, pre-sleep of 2.2) on the path
+   of this message, the sleep buffer after the step is the sleep buffer before it *)
+Theorem C07_nonwake :
+  forall bat vlt now line s m,
+    Inv vlt (s_w s) -> decode (proto_of (s_w s)) line = DecOk m ->
+    a_release (listen_allow (w_proto (s_w s)) m) = false ->
+    w_set (s_w (snd (listen_step bat vlt now line s))) = w_set (s_w s).
+Proof. exact nonwake_keeps_buffer. Qed.
+Print Assumptions C07_nonwake.
+
+Theorem C07_release_only_at_wake :
+  map releasing_handlers protocols
+  = [[]; []; ["handle_i_heartbeat_response"]; ["handle_i_heartbeat_response"];
+     ["handle_i_pre_sleep_notification"]]%string.
+Proof. exact tables_release_only_at_wake. Qed.
+Print Assumptions C07_release_only_at_wake.
 
 (* the wake signals are the ones the generated tables name *)
 Theorem C07_tables :
